@@ -19,6 +19,7 @@ seen=[]
 for c in re.findall(r'C\d\d', m.get('caught_by','')):
     if c not in seen: seen.append(c)
 print(' '.join(seen))")
+  if [ -z "$checks" ]; then echo "$id: recorded as not caught (see its meta.json)"; continue; fi
   if ! git -C $REPO diff --quiet; then echo "$REPO is dirty, aborting"; exit 2; fi
   if ! (git -C $REPO apply $d/patch.diff 2>/dev/null || git -C $REPO apply -3 $d/patch.diff 2>/dev/null); then
     git -C $REPO reset -q; git -C $REPO checkout -- .
